@@ -117,6 +117,24 @@ prop("C16", "exploration",
      {"quick": {"runs": 16000, "max_secs": 150}, "thorough": {"runs": 400000, "max_secs": 1200}},
      ["files opened through raw syscalls (none in the CLI paths; the tempfile crate in bitar's library writer) would not be seen by the link-time seam"])
 
+prop("C04", "fault_enumeration",
+     "fault kind: corruption of stored bytes after creation, and lying servers. Mode A (1/3 of runs): a small archive (source <= 400 B, hash length >= 8, library writer) and EVERY single-bit flip (except the upper five bytes of the dictionary-size field) and EVERY truncation length of it "
+     "(exhaustive when the archive is <= 1400 B / 4096 B in the thorough tier, else 512 + 128 sampled), each cloned through the library. Mode B (2/3): one scenario of the clone family (CLI or library, seeds, in place, local or HTTP, +-verify-output) and one drawn corruption: "
+     "bit flip (anywhere / header / payload), multi-byte overwrite, swap of two stored chunk payloads, trailing garbage, truncation, header re-encoded with one changed field and a recomputed checksum while --verify-header carries the original, "
+     "a server answering one request with a flipped bit / an error page of the requested length / a short body, --verify-header off by one bit, --verify-header right (control). "
+     "Oracle: the clone does not exit 0, or the output equals the source; a change inside the header is never followed by success and (CLI) the output path is never opened; with --verify-header X success implies the real header checksum is X; "
+     "StepBudget/Deadlock are violations, panics are counted and left to C15. Non-trivial: > 100 corruptions tried (A) / any corruption other than the control (B); distinct: trace hash + shape.",
+     {"quick": {"runs": 6000, "max_secs": 200}, "thorough": {"runs": 200000, "max_secs": 1500}},
+     ["hash length >= 8 (the property's quantifier)", "header tamper with a recomputed checksum is only judged together with --verify-header (without it the archive is a valid description of another source)"],
+     exhaustive_note="mode A is exhaustive per sampled small archive (the evidence counts archives enumerated exhaustively and corruptions tried)")
+prop("C17", "exploration",
+     "archives are written by the independent encoder, never by bita: drawn source and chunker parameters (chunk list from the reference chunker, or 1/8 arbitrary cuts), current or legacy magic, chunk-data offset = header end + slack (0, 1..64, 1..5000), "
+     "stored chunks ascending / descending / permuted with no / some / all gaps, trailing bytes, per-chunk raw or compressed with the brotli / zstd / lzma crates (never compressed with stored size == source size), unknown protobuf fields at every level, "
+     "packed / split-packed / unpacked rebuild order, explicit default values, hash length 4..64, zero chunks, foreign version strings, metadata. Oracle: bitar opens it and every accessor reports the encoder's inputs; then the whole clone family "
+     "(CLI / library, local / HTTP, seeds, in place, block device) must succeed with output == source; over HTTP the requests are the maximal adjacent runs for this layout. Non-trivial: at least two unique chunks; distinct: the encoding choices + chunk count.",
+     {"quick": {"runs": 20000, "max_secs": 150}, "thorough": {"runs": 600000, "max_secs": 1200}},
+     ["'conforming' = what header.rs' table and chunk_dictionary.proto (incl. its comments: descriptors in order of first occurrence) document; descriptor order is therefore not permuted, storage order is"])
+
 NOT_APPLICABLE = {
     "C10": "pure function of its input: quantifies over pairs of byte strings and configurations only; given C09 (same chunks under every read schedule) there is no schedule, clock, fault, crash or interleaving for a simulator to own. The mechanism it rests on (boundary decisions depend on the trailing window alone) is checked by C09's reference chunker, which is how F5 was found.",
 }
@@ -161,3 +179,9 @@ text("C14", "deterministic simulation: the refusal grid executed as simulated pr
      "The 148-cell grid is covered many times per run of the check with drawn contents and schedules. Sampling of contents, complete over cells (reported).", CLONE_NOTE)
 text("C16", "deterministic simulation: every open/unlink/rename/mkdir/truncate of the simulated process recorded at the link-time syscall seam, plus sandbox listings before and after",
      "Seeded exploration over all clone modes and compress configurations. Sampling, not proof.", CLONE_NOTE)
+
+text("C04", "deterministic simulation with fault injection on stored bytes and server responses: per-archive enumeration of every bit flip and truncation, plus seeded single corruptions across the clone scenario family",
+     "Fault enumeration (exhaustive per small archive: ~2e6 corrupted clones in the quick tier) combined with seeded exploration across archives, options and transports. Every corruption must be detected or harmless.", CLONE_NOTE)
+text("C17", "deterministic simulation: archives from an independent encoder cloned through the simulated CLI / library / HTTP paths under read and body fragmentation",
+     "Seeded exploration over everything the documented format leaves open; gaps, slack and descending order force the seek / new-request paths of both readers. Sampling, not proof.",
+     "Trusted: the encoder (hand-written protobuf codec, brotli/zstd/lzma crates, blake2), reference chunker; real: bitar reader, CLI clone; port: tokio::fs::File; stub: pool, network.")
